@@ -5,6 +5,8 @@ Model driver for C20 (serde data-model mapping). One request per line:
   de <sval>                            → ok <val> | err
   rust <ty> <rval>                     → ty=… wf=… fit=… k=<val|err> back=<rval|err|->
   from <ty> <val>                      → ok <rval> | err
+  graph <root> (l e …) (m e …) …       → <sval> | err      (e = n<int> | r<node index>; `serG`)
+  jint <integer literal> f<bits>       → ok <val> | err    (`de (jsonInt n)`, bits = nearest f64)
 
 Grammars (S-expressions; strings / byte strings hex-encoded `x…`):
   val  : see Common/ValueIO
@@ -171,7 +173,8 @@ partial def parseTy : Sexp → Option Ty
 
 /-! ### external facts from the runtime -/
 
-def mkExt (fk : List (UInt64 × List Nat)) : Ext where
+def mkExt (fk : List (UInt64 × List Nat)) (big : UInt64 := 0) : Ext where
+  big2f _ := big
   fmtFloat b := match fk.find? (fun e => e.1 == b) with | some e => e.2 | none => []
   widen b := (Float32.ofBits b).toFloat.toBits
   narrow b := (Float.ofBits b).toFloat32.toBits
@@ -218,11 +221,41 @@ def handle (line : String) : String :=
        let n := norm X v
        let toml := match s with | some s => tomlAccepts s | none => false
        let js := (s.map jsonLayer).bind de
-       s!"ser={match s with | some s => svalStr s | none => "err"} rt={optVal rt} norm={valStr (canonVal n)} sz={b01 (serializable v)} toml={b01 toml} fin={b01 (allFinite v)} sk={b01 (strKeys v)} json={optVal js} idem={b01 (decide (norm X n = n))}")
+       s!"ser={match s with | some s => svalStr s | none => "err"} rt={optVal rt} norm={valStr (canonVal n)} sz={b01 (serializable v)} toml={b01 toml} fin={b01 (allFinite v)} sk={b01 (strKeys v)} json={optVal js} idem={b01 (decide (norm X n = n))} depth={depth v} ndepth={depth n}")
   | [.atom "de", s] =>
     (match parseSVal s with
      | none => "bad-request"
      | some s => match de s with | some v => "ok " ++ valStr (canonVal v) | none => "err")
+  | [.atom "limits"] => s!"json={jsonDepthLimit} yaml={yamlDepthLimit} toml={tomlDepthLimit}"
+  | .atom "graph" :: root :: nodes =>
+    -- graph <root> (l e …) (m e …) …   with e = n<int> | r<idx>
+    let parseElem : Sexp → Option GElem := fun e =>
+      match e.atom?.map String.toList with
+      | some ('n' :: rest) => (String.ofList rest).toInt?.map (fun n => GElem.leaf (Int64.ofInt n))
+      | some ('r' :: rest) => (String.ofList rest).toNat?.map GElem.ref
+      | _ => none
+    let parseNode : Sexp → Option GNode := fun nd =>
+      match nd with
+      | .list (.atom "l" :: es) => (es.mapM parseElem).map (fun es => ⟨false, es⟩)
+      | .list (.atom "m" :: es) => (es.mapM parseElem).map (fun es => ⟨true, es⟩)
+      | _ => none
+    (match root.nat?, nodes.mapM parseNode with
+     | some r, some g =>
+       (match serG g (g.length + 1) [] r with
+        | some sv => svalStr sv
+        | none => "err")
+     | _, _ => "bad-request")
+  | [.atom "jint", n, f] =>
+    -- jint <decimal integer literal> f<bits of the nearest f64>
+    (match n.int?, f.atom?.map String.toList with
+     | some n, some ('f' :: rest) =>
+       (match parseHex64 rest with
+        | some bits =>
+          (match de (jsonInt (mkExt [] bits) n) with
+           | some v => "ok " ++ valStr (canonVal v)
+           | none => "err")
+        | none => "bad-request")
+     | _, _ => "bad-request")
   | [.atom "rust", t, x] =>
     (match parseTy t, parseRVal x with
      | some t, some x =>
